@@ -31,7 +31,7 @@ func RunSigMsg(v *VestWorld, msg sdk.Msg) (direct MsgResult, routed MsgResult) {
 	direct = MsgResult{}
 	func() {
 		defer func() {
-			if r := recover(); r != nil {
+			if r := notRapid(recover()); r != nil {
 				direct.Panic = r
 			}
 		}()
